@@ -277,7 +277,8 @@ Definition model_prog_fixed (sid : Z) (txt : block) : list instr :=
 Definition model_prog_sel (sid : Z) (txt : block) : list instr :=
   if fix1_applied then model_prog_fixed sid txt else model_prog sid txt.
 (* the registered sites (harness/props/c20.py:SITES); the generated table must list exactly these *)
-Definition site_ids : list Z := [1; 2; 3; 4; 5; 6; 7; 8; 9; 10; 11; 12; 13; 14; 15; 16; 17; 18; 19; 20; 21]%Z.
+Definition site_ids : list Z :=
+  [1; 2; 3; 4; 5; 6; 7; 8; 9; 10; 11; 12; 13; 14; 15; 16; 17; 18; 19; 20; 21; 22; 23; 24; 25; 26; 27; 28; 29; 30; 32; 33]%Z.
 
 (* decidable equality of programs (the harness's extraction against the generated one) *)
 Definition nat_list_eqb := list_eqb Nat.eqb.
